@@ -140,6 +140,18 @@ impl ActiveRequests {
         }
     }
 
+    /// Verification hook: read access for the handler snapshot.
+    #[cfg(discv5_verif)]
+    pub fn verif_mapping(&self) -> &HashMap<NodeAddress, Vec<RequestCall>> {
+        &self.active_requests_mapping
+    }
+
+    /// Verification hook: number of nonce -> address mappings.
+    #[cfg(discv5_verif)]
+    pub fn verif_nonce_count(&self) -> usize {
+        self.active_requests_nonce_mapping.len()
+    }
+
     /// Checks that `active_requests_mapping` and `active_requests_nonce_mapping` are in sync.
     // this function is only available in tests
     #[cfg(test)]
